@@ -68,7 +68,7 @@ def reqs(objs):
     return {n: {r.vname for r in o.required} for n, o in objs.items()}
 
 
-def one(skel, toppure, edges, res):
+def _one(skel, toppure, edges, res):
     rep = {'skeleton': skel, 'toppure': toppure,
            'edges': [list(e) for e in edges]}
     top, objs, member = build(skel, toppure, edges)
@@ -122,6 +122,15 @@ def one(skel, toppure, edges, res):
                               sorted(edges)), rep)
 
 
+def one(skel, toppure, edges, res):
+    _, hang = seq.guarded(_one, skel, toppure, edges, res)
+    if hang:
+        seq.add_violation(res, 'c16:hang', "%s | skeleton %s edges %s"
+                          % (hang, skel, sorted(edges)),
+                          {'skeleton': skel, 'toppure': toppure,
+                           'edges': [list(e) for e in edges]})
+
+
 def run_item(item):
     res = seq.new_result()
     names = node_names(item['skel'])
@@ -130,6 +139,8 @@ def run_item(item):
     lo, hi = item['range']
     n = 0
     for edges in itertools.islice(combos, lo, hi):
+        if res.get('abort'):
+            break
         one(item['skel'], item['toppure'], edges, res)
         n += 1
         if n == 1 and lo == 0 and item['r'] == 2 and not res['samples']:
